@@ -98,3 +98,72 @@ Section ProbCover.
     : list step :=
     sel_loop pc_state pc_row pc_next k (edges, is_cand) noises.
 End ProbCover.
+
+(* ------------------------------------------------ loops masking an oracle row *)
+(* Clue / DropQuery (`utilities[b][mapping] = scores_b; utilities[b][query_indices] = nan`),
+   DiscriminativeAL(greedy_selection=False) and FourDs (the same in candidate space, remapped):
+   the scores of step b are an arbitrary function of the picks so far (refitted discriminator,
+   b-th centroid, ...). *)
+Section OracleLoop.
+  Variable n : nat.
+  Variable cs : list nat.
+  Variable score : list nat -> list val.
+
+  Definition ol_row (prev : list nat) : list val :=
+    mask_all (scatter cs (score prev) (repeat None n)) prev.
+
+  Definition oracle_loop (k : nat) (noises : list (list Z)) : list step :=
+    sel_loop (list nat) ol_row (fun prev p => prev ++ [p]) k [] noises.
+End OracleLoop.
+
+(* --------------------------------------- _greedy_sampling: compacted candidates *)
+(* skactiveml/pool/_greedy_sampling.py: the utilities of the not yet selected candidates form a
+   compacted vector; rand_argmax runs on that vector (noise of its length), the winner is translated
+   through not_selected_candidates and deleted from it. *)
+Fixpoint remove_nth {A} (i : nat) (l : list A) : list A :=
+  match l, i with
+  | [], _ => []
+  | _ :: t, O => t
+  | x :: t, S j => x :: remove_nth j t
+  end.
+
+Section Compact.
+  Variable m : nat.                                      (* number of candidates = row width *)
+  Variable score : list nat -> list nat -> list val.     (* picked so far -> remaining -> compacted utilities *)
+
+  Fixpoint compact_loop (k : nat) (picked remaining : list nat) (noises : list (list Z)) : list step :=
+    match k, noises with
+    | S k', nz :: rest =>
+        let util := score picked remaining in
+        let i := rand_argmax util nz in
+        let p := nth i remaining O in
+        (p, scatter remaining util (repeat None m))
+          :: compact_loop k' (picked ++ [p]) (remove_nth i remaining) rest
+    | _, _ => []
+    end.
+End Compact.
+
+(* GreedySamplingX: utilities from a distance oracle d (cand position -> sample index -> distance);
+   no labeled sample: minus the sum of the distances to all samples; otherwise the distance to the
+   nearest labeled-or-selected sample.  cidx maps a candidate position to its index in X_all. *)
+Section GSx.
+  Variable d : nat -> nat -> Z.
+  Variable n_samples : nat.             (* sample_indices = arange(len(X)) *)
+  Variable labeled : list nat.          (* selected_indices at the start *)
+  Variable cidx : nat -> nat.           (* candidate_indices[c] *)
+
+  Definition gsx_score (picked remaining : list nat) : list val :=
+    let sel := labeled ++ map cidx picked in
+    map (fun c =>
+           match sel with
+           | [] => Some (- fold_left (fun acc s => acc + d c s) (seq 0 n_samples) 0)
+           | s0 :: st => Some (fold_left (fun acc s => Z.min acc (d c s)) st (d c s0))
+           end) remaining.
+
+  Definition gsx_loop (m k : nat) (noises : list (list Z)) : list step :=
+    compact_loop m gsx_score k [] (seq 0 m) noises.
+End GSx.
+
+(* candidate space -> sample space: utilities[:, mapping] = utilities_cand; query_indices = mapping[...] *)
+Definition remap (n : nat) (mapping : list nat) (t : list step) : list step :=
+  map (fun s => (nth (fst s) mapping O, scatter mapping (snd s) (repeat None n))) t.
